@@ -627,3 +627,30 @@ func TestC16_R_SecondBuildThroughRepointedLinkSystem(t *testing.T) {
 		}
 	}
 }
+
+// The same with chunks of production size (the default 256 KiB chunker, 64 KiB and 1 MiB chunks): a link system that reads
+// from a store which already holds the file and writes to a fresh one - every block of the returned DAG is in the store it
+// was written to.
+func TestC16_R_SplitStoresWithLargeChunks(t *testing.T) {
+	for _, c := range []struct {
+		n       int
+		chunker string
+	}{{1<<20 + 7, ""}, {300000, "size-65536"}, {3 << 20, "size-1048576"}, {5000, "size-128"}} {
+		data := lcgBytes(c.n, 3, 0)
+		upstream, target := NewStore(), NewStore()
+		if _, _, err := buildFile(upstream, data, c.chunker, 174); err != nil {
+			t.Fatal(err)
+		}
+		ls := target.LinkSystem()
+		ls.StorageReadOpener = upstream.openRead
+		var link datamodel.Link
+		var err error
+		must(t, "build with split stores", func() { link, _, err = builder.BuildUnixFSFile(bytes.NewReader(data), c.chunker, ls) })
+		if err != nil || link == nil {
+			t.Fatalf("C16: %d bytes, chunker %q, split stores: link=%v err=%v", c.n, c.chunker, link, err)
+		}
+		if _, dangling := target.Reachable(cidOf(link)); len(dangling) > 0 {
+			t.Fatalf("C16: %d bytes, chunker %q, built through a link system that reads from a store already holding the file and writes to a fresh one: %d blocks of the returned DAG (first %s) are missing from the store it was written to", c.n, c.chunker, len(dangling), dangling[0])
+		}
+	}
+}
